@@ -106,7 +106,7 @@ def main():
                 races.append(blk)
     seen = set()
     for k, blk in enumerate(races):
-        frames = re.findall(r"^\s+(github\.com/peterstace/simplefeatures/[^\s(]+)\(\)\s*\n\s+(\S+?):(\d+)", blk, flags=re.M)
+        frames = re.findall(r"^\s+(github\.com/peterstace/simplefeatures/\S+?)\(\)\s*\n\s+(\S+?):(\d+)", blk, flags=re.M)
         key = " <- ".join("%s@%s:%s" % (fn.split("/")[-1], os.path.basename(fl), ln) for fn, fl, ln in frames[:6]) or blk.strip()[:300].replace("\n", " ")
         if key in seen:
             continue
